@@ -1,11 +1,118 @@
-//! C01 — check not built yet.
-use mc_core::Args;
-use serde_json::Value;
+//! C01 — the wallet balance is exactly the ledger of unspent notes, in any scan order.
+use mc_core::{Args, Run, Tier};
+use serde_json::{json, Value};
 
-pub fn replay(_kind: &str, _case: &Value) -> Result<(), String> {
-    Err("C01: check not built".into())
+use crate::graph::{self, Cfg, Ctx, Op};
+use crate::universes;
+
+pub fn setup(name: &str, tier_depth: usize, max_rewinds: u32, wall: f64) -> (crate::universe::Universe, Cfg) {
+    let u = match name {
+        "tiny" => universes::tiny(),
+        "small" => universes::small(),
+        "mid" => universes::mid(),
+        _ => mc_core::machinery_error(&format!("unknown universe {name}")),
+    };
+    let f = universes::FIRST;
+    let ends: Vec<u32> = u.seg_start.iter().skip(1).map(|s| s - 1).collect();
+    let ctip = u.chains[0].tip();
+    let cfg = Cfg {
+        retention: 4,
+        max_rewinds,
+        max_depth: tier_depth,
+        check_balance: true,
+        check_trees: false,
+        check_queue: false,
+        wall_cap_s: wall,
+        state_cap: 400_000,
+        tips: match name {
+            "tiny" => vec![ctip, ctip + 3],
+            "small" => vec![f + 3, ctip, ctip + 3],
+            _ => vec![f + 3, f + 6, ctip, ctip + 50],
+        },
+        rewind_heights: match name {
+            "tiny" => vec![f, f + 1],
+            "small" => vec![f, f + 1, f + 3, f + 4],
+            _ => ends.iter().copied().filter(|h| *h < ctip).chain([f + 4, f + 60]).collect(),
+        },
+        with_roots: false,
+        with_client: false,
+        free_scans: true,
+        segment_scans: false,
+        splits: match name {
+            "tiny" | "small" => vec![],
+            _ => vec![f + 50, f + 107],
+        },
+    };
+    (u, cfg)
 }
 
-pub fn run(_args: &Args) -> i32 {
-    mc_core::machinery_error("C01: check not built")
+fn params(tier: Tier) -> (&'static str, usize, u32, f64) {
+    match tier {
+        Tier::Quick => ("tiny", 12, 1, 45.0),
+        Tier::Thorough => ("mid", 10, 2, 900.0),
+    }
+}
+
+pub fn replay(kind: &str, case: &Value) -> Result<(), String> {
+    if kind != "history" {
+        return Err(format!("unknown kind {kind}"));
+    }
+    let name = case["universe"].as_str().unwrap_or("small");
+    let ops: Vec<Op> = serde_json::from_value(case["ops"].clone()).map_err(|e| e.to_string())?;
+    let (u, cfg) = setup(name, 99, 9, 1e9);
+    let fresh = (0..u.chains.len()).map(|c| graph::fresh_reference(&u, &cfg, c)).collect();
+    let cx = Ctx { u: &u, cfg: &cfg, fresh };
+    graph::replay_history(&cx, &ops, &[&graph::check_balance])
+}
+
+pub fn run(args: &Args) -> i32 {
+    let run = Run::new(args, "model_checking");
+    let (name, depth, rewinds, wall) = params(args.tier);
+    let (u, cfg) = setup(name, depth, rewinds, wall);
+    run.set_rule(
+        "explicit-state BFS over the real SQLite wallet: operations Scan(every contiguous run of segments/splits), Tip(h), Rewind(h)+switch to an \
+         alternative branch; states matched on a canonical logical dump of the database + reference model; a state is non-trivial when it was \
+         reached by at least one operation and is distinct by that key; oracle = generation-time ledger (balances, note rows, spent status) and \
+         the differential against a fresh linear scan",
+    );
+    run.assume("expiry of an un-mined transaction with unknown expiry height is min_observed_height + 40 (documented in wallet/common.rs); while an orphaned transaction is unexpired only the bracket [ledger - spent_by_orphans, ledger + received_in_orphans] is required");
+    run.assume("get_wallet_summary may return None while the wallet knows no chain tip");
+    let fresh = (0..u.chains.len()).map(|c| graph::fresh_reference(&u, &cfg, c)).collect();
+    let cx = Ctx { u: &u, cfg: &cfg, fresh };
+    let (stats, failures) = graph::search(&cx, &[&graph::check_balance]);
+    record(&run, name, &u, &cfg, &stats, failures);
+    run.sample(json!({"universe": name, "ops": [Op::Scan{from: universes::FIRST + 2, to: universes::FIRST + 2}, Op::Tip{h: universes::FIRST + 4}, Op::Scan{from: universes::FIRST, to: universes::FIRST + 1}, Op::Rewind{h: universes::FIRST + 1, switch: 1}]}));
+    run.require(stats.outcomes.contains_key("complete:matches-fresh") || run.failure_count() > 0, "no fully scanned state reached");
+    run.require(stats.outcomes.contains_key("spends:some") || run.failure_count() > 0, "no spend observed");
+    run.finish(&replay)
+}
+
+/// Record one search in the evidence.
+pub fn record(run: &Run, name: &str, u: &crate::universe::Universe, cfg: &Cfg, stats: &graph::SearchStats, failures: Vec<graph::Failure>) {
+    run.add_graph(stats.states, stats.transitions, stats.transitions);
+    run.add_evaluations(stats.transitions);
+    // every state after the initial one is distinct by the state key and reached by >= 1 operation
+    run.eval_distinct_only(stats.states.saturating_sub(1));
+    for (k, v) in &stats.outcomes {
+        run.outcome_n(k, *v);
+    }
+    run.section(
+        &format!("search_{name}"),
+        json!({
+            "universe": {"name": name, "blocks_main": u.chains[0].blocks.len(), "chains": u.chains.len(), "notes": u.notes.len(), "segments": u.seg_start.len() - 1},
+            "states": stats.states, "transitions": stats.transitions, "refused_operations": stats.refused,
+            "per_depth_frontier": stats.per_depth, "capped": stats.capped,
+            "bounds": {"max_depth": cfg.max_depth, "max_rewinds": cfg.max_rewinds, "tips": cfg.tips, "rewind_heights": cfg.rewind_heights, "splits": cfg.splits,
+                       "with_roots": cfg.with_roots, "with_client": cfg.with_client, "free_scans": cfg.free_scans, "segment_scans": cfg.segment_scans, "retention_interval": cfg.retention},
+        }),
+    );
+    if let Some(c) = &stats.capped {
+        run.cap_hit(&format!("{name}: {c}"));
+    } else if stats.per_depth.len() > cfg.max_depth && stats.per_depth.last().copied().unwrap_or(0) > 0 {
+        run.cap_hit(&format!("{name}: depth bound {} reached with a non-empty frontier", cfg.max_depth));
+    }
+    for f in failures {
+        let key = format!("{name}:{}", f.history.iter().map(|o| format!("{o:?}")).collect::<Vec<_>>().join(";"));
+        run.fail("history", key, f.msg, json!({"universe": name, "ops": f.history}));
+    }
 }
